@@ -30,11 +30,11 @@ import (
 // judges every accepted proof by integer semantics on the ledger's value.
 
 type rpStmt struct {
-	Attr    int    `json:"attr"`  // 1-based attribute index
-	Sign    int    `json:"sign"`  // +1: factor*m >= bound, -1: factor*m <= bound
-	Factor  uint   `json:"factor"`
-	Delta   string `json:"delta"` // sign*(factor*m - bound), decimal; negative => false statement
-	Three   bool   `json:"three"` // three-squares table splitter
+	Attr   int    `json:"attr"` // 1-based attribute index
+	Sign   int    `json:"sign"` // +1: factor*m >= bound, -1: factor*m <= bound
+	Factor uint   `json:"factor"`
+	Delta  string `json:"delta"` // sign*(factor*m - bound), decimal; negative => false statement
+	Three  bool   `json:"three"` // three-squares table splitter
 }
 
 type C12Spec struct {
@@ -146,15 +146,15 @@ func holds(sign int, factor *big.Int, bound, m *big.Int) bool {
 }
 
 type rangeWorld struct {
-	key     *kernel.Key
-	hc      *HeldCred
-	ms      []*big.Int
-	stmts   map[int][]*rangeproof.Statement
-	flat    []*rangeproof.Statement // in spec order
-	flatIdx []int
-	anyFalse bool
-	usable  bool
-	sess    Session
+	key       *kernel.Key
+	hc        *HeldCred
+	ms        []*big.Int
+	stmts     map[int][]*rangeproof.Statement
+	flat      []*rangeproof.Statement // in spec order
+	flatIdx   []int
+	anyFalse  bool
+	usable    bool
+	sess      Session
 	disclosed []int
 }
 
@@ -529,7 +529,9 @@ func execC12(r *kernel.Run, s C12Spec) {
 		}
 		fb := &freeRangeBuilder{inner: inner, pk: rw.key.Pk, structure: structure, index: st.Attr, fake: fake, rnd: randBits(hrand(s.ValSeed, 12), 500)}
 		var pl gabi.ProofList
-		if p := guard(func() { pl, err = gabi.ProofBuilderList{fb}.BuildProofList(rw.sess.Context, rw.sess.Nonce, rw.sess.IsSig) }); p != "" || err != nil {
+		if p := guard(func() {
+			pl, err = gabi.ProofBuilderList{fb}.BuildProofList(rw.sess.Context, rw.sess.Nonce, rw.sess.IsSig)
+		}); p != "" || err != nil {
 			r.Probe("byzantine-free-standing-not-buildable")
 			continue
 		}
@@ -546,7 +548,7 @@ func execC12(r *kernel.Run, s C12Spec) {
 	}
 	// Byzantine holder, in memory: a range proof whose commitments C_i are 0 (or multiples of n): every
 	// power of them is 0, so every relation they appear in is trivially "satisfied"
-	for di, deg := range []*big.Int{big.NewInt(0), new(big.Int).Set(rw.key.Pk.N)} {
+	for di, deg := range []*big.Int{big.NewInt(0), new(big.Int).Set(rw.key.Pk.N), big.NewInt(0), new(big.Int).Set(rw.key.Pk.N)} {
 		st := s.Stmts[0]
 		id := fmt.Sprintf("byzantine:degenerate-range-commitments:%d", di)
 		if !wanted(s.OnlyFault, id) {
@@ -557,9 +559,11 @@ func execC12(r *kernel.Run, s C12Spec) {
 		if err != nil {
 			continue
 		}
-		zb := &zeroRangeBuilder{inner: inner, pk: rw.key.Pk, index: st.Attr, bound: bound, deg: deg}
+		zb := &zeroRangeBuilder{inner: inner, pk: rw.key.Pk, index: st.Attr, bound: bound, deg: deg, layout: di / 2}
 		var pl gabi.ProofList
-		if p := guard(func() { pl, err = gabi.ProofBuilderList{zb}.BuildProofList(rw.sess.Context, rw.sess.Nonce, rw.sess.IsSig) }); p != "" || err != nil {
+		if p := guard(func() {
+			pl, err = gabi.ProofBuilderList{zb}.BuildProofList(rw.sess.Context, rw.sess.Nonce, rw.sess.IsSig)
+		}); p != "" || err != nil {
 			r.Probe("byzantine-degenerate-not-buildable")
 			continue
 		}
@@ -599,23 +603,35 @@ func execC12(r *kernel.Run, s C12Spec) {
 			if inner, err := rw.hc.Cred.CreateDisclosureProofBuilder(rw.disclosed, nil, false); err == nil {
 				kc := new(big.Int).Sub(m, big.NewInt(5))
 				if kc.Sign() >= 0 {
-					hb := &handRangeBuilder{inner: inner, pk: rw.key.Pk, index: st.Attr, m: m, sign: 1, a: 1, k: kc, ld: min(160, rw.key.Pk.Params.Lm),
-						E: new(big.Int).Neg(kc), P: big.NewInt(-1), hr: hh}
-					var pl gabi.ProofList
-					if p := guard(func() { pl, err = gabi.ProofBuilderList{hb}.BuildProofList(rw.sess.Context, rw.sess.Nonce, rw.sess.IsSig) }); p == "" && err == nil {
-						if v := verifyWire(mustJSON(pl), rw.sess); v.Accepted {
-							r.Probe("hand-prover-control-accepted")
-						} else {
-							r.Probe("hand-prover-control-rejected")
+					accepted := false
+					for layout := 0; layout < 2 && !accepted; layout++ {
+						if layout == 1 {
+							if inner, err = rw.hc.Cred.CreateDisclosureProofBuilder(rw.disclosed, nil, false); err != nil {
+								break
+							}
 						}
+						hb := &handRangeBuilder{inner: inner, pk: rw.key.Pk, index: st.Attr, m: m, sign: 1, a: 1, k: kc, ld: min(160, rw.key.Pk.Params.Lm),
+							E: new(big.Int).Neg(kc), P: big.NewInt(-1), hr: hh, layout: layout}
+						var pl gabi.ProofList
+						if p := guard(func() {
+							pl, err = gabi.ProofBuilderList{hb}.BuildProofList(rw.sess.Context, rw.sess.Nonce, rw.sess.IsSig)
+						}); p == "" && err == nil {
+							accepted = verifyWire(mustJSON(pl), rw.sess).Accepted
+						}
+					}
+					if accepted {
+						r.Probe("hand-prover-control-accepted")
+					} else {
+						r.Probe("hand-prover-control-rejected")
 					}
 				}
 			}
 		}
 		hyp := 0
-		for _, e := range []int64{1, -1} {
+		for _, e := range []int64{1, -1, 1, -1} {
 			for _, pw := range []int64{-int64(a) * int64(sign), int64(a) * int64(sign), -int64(a), int64(a)} {
 				hyp++
+				layout := (hyp - 1) / 8 // hypotheses 9..16: the statement values are hashed as well
 				id := fmt.Sprintf("byzantine:hand-prover:attr%d:sign%d:a%d:hyp%d", st.Attr, sign, a, hyp)
 				if !wanted(s.OnlyFault, id) || k.Sign() < 0 {
 					continue
@@ -625,9 +641,11 @@ func execC12(r *kernel.Run, s C12Spec) {
 					continue
 				}
 				hb := &handRangeBuilder{inner: inner, pk: rw.key.Pk, index: st.Attr, m: m, sign: sign, a: a, k: k, ld: min(160, rw.key.Pk.Params.Lm),
-					E: new(big.Int).Mul(k, big.NewInt(e)), P: big.NewInt(pw), hr: hh}
+					E: new(big.Int).Mul(k, big.NewInt(e)), P: big.NewInt(pw), hr: hh, layout: layout}
 				var pl gabi.ProofList
-				if p := guard(func() { pl, err = gabi.ProofBuilderList{hb}.BuildProofList(rw.sess.Context, rw.sess.Nonce, rw.sess.IsSig) }); p != "" || err != nil {
+				if p := guard(func() {
+					pl, err = gabi.ProofBuilderList{hb}.BuildProofList(rw.sess.Context, rw.sess.Nonce, rw.sess.IsSig)
+				}); p != "" || err != nil {
 					r.Probe("byzantine-hand-prover-not-buildable")
 					continue
 				}
@@ -637,6 +655,24 @@ func execC12(r *kernel.Run, s C12Spec) {
 				}
 				r.Probe("byzantine-hand-prover-built")
 				deliver(id, "byzantine-hand-prover", wb)
+			}
+		}
+	}
+	// Byzantine holder who chooses the statement AFTER the challenge: it hashes fixed first-message values
+	// T_i = R^(2^(64 i)), T_m = R^(X - r_m), waits for c, and only then picks the commitments C_i and the
+	// bound k (neither is an input of the challenge) so that every T is reconstructed exactly
+	if id := fmt.Sprintf("byzantine:statement-chosen-after-challenge:attr%d", s.Stmts[0].Attr); wanted(s.OnlyFault, id) {
+		st := s.Stmts[0]
+		if inner, err := rw.hc.Cred.CreateDisclosureProofBuilder(rw.disclosed, nil, false); err == nil && uint(rw.ms[st.Attr].BitLen()) <= rw.key.Pk.Params.Lm {
+			fb := &forgeRangeBuilder{inner: inner, pk: rw.key.Pk, index: st.Attr, m: rw.ms[st.Attr], hr: hrand(s.ValSeed, 1213)}
+			var pl gabi.ProofList
+			if p := guard(func() {
+				pl, err = gabi.ProofBuilderList{fb}.BuildProofList(rw.sess.Context, rw.sess.Nonce, rw.sess.IsSig)
+			}); p != "" || err != nil {
+				r.Probe("byzantine-forger-not-buildable")
+			} else if wb, merr := json.Marshal(pl); merr == nil {
+				r.Probe("byzantine-forger-built")
+				deliver(id, "byzantine-statement-after-challenge", wb)
 			}
 		}
 	}
@@ -757,23 +793,27 @@ func (f *freeRangeBuilder) CreateProof(c *big.Int) gabi.Proof {
 	pd.RangeProofs = map[int][]*rangeproof.Proof{f.index: {f.structure.BuildProof(f.commit, c)}}
 	return pd
 }
-func (f *freeRangeBuilder) PublicKey() *gabikeys.PublicKey              { return f.pk }
+func (f *freeRangeBuilder) PublicKey() *gabikeys.PublicKey             { return f.pk }
 func (f *freeRangeBuilder) SetProofPCommitment(*gabi.ProofPCommitment) {}
 
 // zeroRangeBuilder attaches a four-square range proof for a false statement whose commitments are
 // all degenerate (0 modulo n); the contributions it hashes are the zeros a verifier will reconstruct.
 type zeroRangeBuilder struct {
-	inner *gabi.DisclosureProofBuilder
-	pk    *gabikeys.PublicKey
-	index int
-	bound *big.Int
-	deg   *big.Int
+	inner  *gabi.DisclosureProofBuilder
+	pk     *gabikeys.PublicKey
+	index  int
+	bound  *big.Int
+	deg    *big.Int
+	layout int
 }
 
 func (z *zeroRangeBuilder) Commit(rz map[string]*big.Int) ([]*big.Int, error) {
 	list, err := z.inner.Commit(rz)
 	if err != nil {
 		return nil, err
+	}
+	if z.layout == 1 {
+		list = append(list, stmtValues(z.index, 1, 1, z.bound, 128, []*big.Int{z.deg, z.deg, z.deg, z.deg})...)
 	}
 	for i := 0; i < 5; i++ { // mCorrect + 4 commitments representations
 		list = append(list, big.NewInt(0))
@@ -792,7 +832,7 @@ func (z *zeroRangeBuilder) CreateProof(c *big.Int) gabi.Proof {
 	pd.RangeProofs = map[int][]*rangeproof.Proof{z.index: {rp}}
 	return pd
 }
-func (z *zeroRangeBuilder) PublicKey() *gabikeys.PublicKey              { return z.pk }
+func (z *zeroRangeBuilder) PublicKey() *gabikeys.PublicKey             { return z.pk }
 func (z *zeroRangeBuilder) SetProofPCommitment(*gabi.ProofPCommitment) {}
 
 // handRangeBuilder is a Byzantine holder's own range prover: an honest disclosure builder plus a range
@@ -812,6 +852,13 @@ type handRangeBuilder struct {
 	d, v       []*big.Int
 	rd, rv, cs []*big.Int
 	v5, rv5    *big.Int
+	layout     int // 0: only the first-message values are hashed; 1: preceded by index, sign, a, k, l_d and the C_i
+}
+
+// stmtValues is what fixes a range statement, in the order the library hashes it.
+func stmtValues(index, sign int, a uint, k *big.Int, ld uint, cs []*big.Int) []*big.Int {
+	out := []*big.Int{big.NewInt(int64(index)), big.NewInt(int64(sign)), new(big.Int).SetUint64(uint64(a)), new(big.Int).Set(k), new(big.Int).SetUint64(uint64(ld))}
+	return append(out, cs...)
 }
 
 func modExpSigned(b, e, n *big.Int) *big.Int {
@@ -871,6 +918,9 @@ func (h *handRangeBuilder) Commit(rz map[string]*big.Int) ([]*big.Int, error) {
 	h.rv5 = randBits(h.hr, int(par.Lm+h.ld+2+par.Lh+par.Lstatzk))
 	tm.Mul(tm, modExpSigned(S, new(big.Int).Neg(h.rv5), N)).Mod(tm, N)
 	tm.Mul(tm, modExpSigned(R, new(big.Int).Mul(h.P, rm), N)).Mod(tm, N)
+	if h.layout == 1 {
+		list = append(list, stmtValues(h.index, h.sign, h.a, h.k, h.ld, h.cs)...)
+	}
 	list = append(list, tm)
 	return append(list, ts...), nil
 }
@@ -887,5 +937,68 @@ func (h *handRangeBuilder) CreateProof(c *big.Int) gabi.Proof {
 	pd.RangeProofs = map[int][]*rangeproof.Proof{h.index: {rp}}
 	return pd
 }
-func (h *handRangeBuilder) PublicKey() *gabikeys.PublicKey              { return h.pk }
+func (h *handRangeBuilder) PublicKey() *gabikeys.PublicKey             { return h.pk }
 func (h *handRangeBuilder) SetProofPCommitment(*gabi.ProofPCommitment) {}
+
+// forgeRangeBuilder is the Byzantine holder that fixes the hashed first-message values of a range proof
+// before the challenge and the statement (commitments C_i and bound k) after it. It needs nothing but its
+// own credential: the CL part is the honest builder's, the attribute randomizer is read off it.
+type forgeRangeBuilder struct {
+	inner *gabi.DisclosureProofBuilder
+	pk    *gabikeys.PublicKey
+	index int
+	m     *big.Int
+	hr    *mrand.Rand
+	bigX  *big.Int
+	xs    []*big.Int
+}
+
+func (f *forgeRangeBuilder) Commit(rz map[string]*big.Int) ([]*big.Int, error) {
+	list, err := f.inner.Commit(rz)
+	if err != nil {
+		return nil, err
+	}
+	probe, ok := f.inner.CreateProof(big.NewInt(0)).(*gabi.ProofD)
+	if !ok || probe.AResponses[f.index] == nil {
+		return nil, errors.New("attribute not hidden")
+	}
+	rm := probe.AResponses[f.index]
+	R, N := f.pk.R[f.index], f.pk.N
+	f.bigX = pow2(200 + f.pk.Params.Lh)
+	list = append(list, modExpSigned(R, new(big.Int).Sub(f.bigX, rm), N))
+	f.xs = nil
+	for i := 0; i < 4; i++ {
+		x := pow2(uint(64 * i))
+		f.xs = append(f.xs, x)
+		list = append(list, new(big.Int).Exp(R, x, N))
+	}
+	return list, nil
+}
+
+func (f *forgeRangeBuilder) CreateProof(c *big.Int) gabi.Proof {
+	pd := f.inner.CreateProof(c).(*gabi.ProofD)
+	R, S, N := f.pk.R[f.index], f.pk.S, f.pk.N
+	y := new(big.Int).Mod(f.bigX, c)
+	q := new(big.Int).Sub(f.bigX, y)
+	q.Div(q, c)
+	mask := new(big.Int).Sub(pow2(64), big.NewInt(1))
+	k := new(big.Int).Add(f.m, q)
+	rp := &rangeproof.Proof{Ld: 128, Sign: 1, A: 1, V5Response: big.NewInt(0)}
+	for i := 0; i < 4; i++ {
+		alpha := new(big.Int).And(new(big.Int).Rsh(y, uint(64*i)), mask)
+		beta := randBits(f.hr, int(f.pk.Params.Lm))
+		k.Sub(k, new(big.Int).Mul(alpha, alpha))
+		ci := new(big.Int).Exp(R, alpha, N)
+		ci.Mul(ci, new(big.Int).Exp(S, beta, N)).Mod(ci, N)
+		dResp := new(big.Int).Add(f.xs[i], new(big.Int).Mul(c, alpha))
+		rp.Cs = append(rp.Cs, ci)
+		rp.DResponses = append(rp.DResponses, dResp)
+		rp.VResponses = append(rp.VResponses, new(big.Int).Mul(c, beta))
+		rp.V5Response.Add(rp.V5Response, new(big.Int).Mul(beta, dResp))
+	}
+	rp.K = k
+	pd.RangeProofs = map[int][]*rangeproof.Proof{f.index: {rp}}
+	return pd
+}
+func (f *forgeRangeBuilder) PublicKey() *gabikeys.PublicKey             { return f.pk }
+func (f *forgeRangeBuilder) SetProofPCommitment(*gabi.ProofPCommitment) {}
